@@ -6,6 +6,8 @@
 package maps
 
 /*@
+// String (strings.Builder, fmt.Fprint: outside the verifier's reach): bounded stand-in, never counted as proved.
+bounded C03 7 12 maps.Set.String against the membership model: every set of up to bound members, before and after removals
 // ---------------------------------------------------------------- C14 (map helpers)
 // has(m,k): key presence; m[k]: value (zero when absent); len(m): cardinality;
 // inside a range-over-map loop, visited[k] is the ghost set of keys already
